@@ -1101,3 +1101,9 @@ func allCallersSatisfy(p *Prog, fn *ssa.Function, depth int, pred func(*ssa.Func
 	}
 	return true
 }
+
+// isDeferred: the instruction is a deferred call (runs at function exit).
+func isDeferred(in ssa.Instruction) bool {
+	_, ok := in.(*ssa.Defer)
+	return ok
+}
